@@ -16,6 +16,9 @@ COQ_TARGETS = ["Properties/C08.vo"]
 MODEL_TARGETS = ["Model/Prob.vo"]
 IMPORTS = "From Ka Require Import Model.Prob.\nOpen Scope string_scope.\nOpen Scope Q_scope.\n"
 
+TRUSTED_EXTRA = ["libm's exp and erf (math.exp, math.erf): Poisson/Exponential/Gaussian values are proved only relative to "
+                 "abstract functions with the stated monotonicity/range facts and validated numerically to 1e-12"]
+
 TOL = Fraction(1, 10 ** 12)
 FAR = 50
 
@@ -566,6 +569,16 @@ def shape(case):
     return f[1] + "(X)"
 
 
+def describe_expected(case, exp):
+    if isinstance(exp, str):
+        return "the expected outcome is a diagnosed %s" % exp[2:]
+    if case["form"][0] == "mean":
+        return "the distribution's mean is %s" % exp
+    if case["law"] in CONTINUOUS:
+        return "the corresponding difference of the true cdf is %s" % (exp if exp.denominator < 10 ** 12 else "%.15g" % float(exp))
+    return "the mass on the integers satisfying the condition as written is %s" % (exp if exp.denominator < 10 ** 12 else "%.15g" % float(exp))
+
+
 def run(ctx):
     rep, tier, seed = ctx["report"], ctx["tier"], ctx["seed"]
     rng = random.Random(seed * 104729 + 8)
@@ -663,7 +676,7 @@ def run(ctx):
         if m is not None:
             m_ok = (m == exp) if isinstance(exp, str) or isinstance(m, str) else (m == exp)
             if not m_ok:
-                rep.violation(dict(kind="model-vs-oracle", law=c["law"], shape=shape(c), tkind=tkind(c)),
+                rep.violation(dict(kind="model-vs-oracle", law=c["law"], form=c["form"][0]),
                               "Gallina model disagrees with the textbook oracle on %s: model %s, oracle %s" % (t, m, exp),
                               dict(case=c, text=t, model=str(m), oracle=str(exp)), found_input=False)
         strict = strict_case(c)
@@ -677,14 +690,15 @@ def run(ctx):
                     "error-instead-of-value" if oc[0] == "err" and not isinstance(exp, str) else
                     "value-instead-of-error" if oc[0] == "val" and isinstance(exp, str) else
                     "wrong-error" if oc[0] == "err" else "wrong-value")
-            sig = dict(kind=kind, law=c["law"], shape=shape(c), tkind=tkind(c))
+            sig = dict(kind=kind, law=c["law"], form=c["form"][0])
             if oc[0] == "err":
                 sig["error"] = oc[1]
-            rep.violation(sig, "C08 fails on the implementation: %s gives %s; the mass on the condition as written is %s"
-                          % (t, show_outcome(oc), exp),
-                          dict(case=c, text=t, impl=show_outcome(oc), expected=str(exp), model=str(m)))
+            rep.violation(sig, "C08 fails on the implementation: %s gives %s; %s"
+                          % (t, show_outcome(oc), describe_expected(c, exp)),
+                          dict(case=c, text=t, shape=shape(c), thresholds=tkind(c), impl=show_outcome(oc),
+                               expected=str(exp), model=str(m)))
         else:
-            rep.violation(dict(kind="correspondence", law=c["law"], shape=shape(c), tkind=tkind(c)),
+            rep.violation(dict(kind="correspondence", law=c["law"], form=c["form"][0]),
                           "model and implementation disagree on %s: impl %s, model %s (oracle %s agrees with the implementation)"
                           % (t, show_outcome(oc), m, exp),
                           dict(case=c, text=t, impl=show_outcome(oc), model=str(m), oracle=str(exp)), found_input=False)
@@ -701,7 +715,7 @@ def run(ctx):
         p = oc[1]
         rel_counts["bounds"] += 1
         if not (-TOL <= p <= 1 + TOL):
-            rep.violation(dict(kind="out-of-[0,1]", law=c["law"], shape=shape(c)),
+            rep.violation(dict(kind="out-of-[0,1]", law=c["law"], form=c["form"][0]),
                           "%s = %s is not a probability" % (t, show_outcome(oc)), dict(case=c, text=t, impl=show_outcome(oc)))
         if f[0] == "single":
             c2 = dict(law=c["law"], params=c["params"], form=["single", f[1], NEG[f[2]], f[3]])
@@ -710,7 +724,7 @@ def run(ctx):
                 rel_counts["complement"] += 1
                 q = by_text[t2][1][1]
                 if not close(p + q, Fraction(1)):
-                    rep.violation(dict(kind="complement", law=c["law"], shape=shape(c), tkind=tkind(c)),
+                    rep.violation(dict(kind="complement", law=c["law"]),
                                   "%s = %s and %s = %s do not sum to 1" % (t, p, t2, q),
                                   dict(case=c, text=t, other=t2, p=str(p), q=str(q)))
         if c["law"] in DISCRETE and f[0] in ("single", "double"):
@@ -735,7 +749,7 @@ def run(ctx):
             want = s if bounded else 1 - s
             rel_counts["brute_force"] += 1
             if not close(p, want, Fraction(1, 10 ** 9)):
-                rep.violation(dict(kind="not-the-sum-of-point-masses", law=c["law"], shape=shape(c), tkind=tkind(c)),
+                rep.violation(dict(kind="not-the-sum-of-point-masses", law=c["law"], form=c["form"][0]),
                               "%s = %s but the implementation's own P(X=k) over the integers %s the condition sum to %s"
                               % (t, show_outcome(oc), "satisfying" if bounded else "violating (complement of)", want),
                               dict(case=c, text=t, impl=show_outcome(oc), brute_force=str(want)))
